@@ -445,6 +445,65 @@ static void ctsRecursive(long n, int threads, bool heavy) {
     _exit(9);
 }
 
+// the same while the set holds an exception: a sibling task throws when the chain is 10 links deep (nested on
+// the scheduling thread); the link goes on scheduling its successor once the set is cancelled.  Every schedule
+// path drops work for a cancelled set, so the chain ends there - in particular it must not go on inline
+// without the depth guard.  (needs PipeFault / waitFor from the pipeline fault scenarios above)
+static void ctsRecursiveFault(long n, int threads, bool heavy) {
+  dispenso::ThreadPool pool((size_t)threads, 1);
+  dispenso::ConcurrentTaskSet ts(pool, heavy ? dispenso::TaskCost::kHeavy : dispenso::TaskCost::kLightweight, 1);
+  Flag release;
+  std::atomic<int> blockers{0}, midChain{0}, recorded{0};
+  for (int i = 0; i < 2 + 2 * threads; ++i)
+    ts.schedule([&]() {
+      if (blockers.fetch_add(1) == 0 && waitFor([&]() { return midChain.load(std::memory_order_acquire) != 0; }, 10000))
+        throw PipeFault();
+      release.wait();
+    }, dispenso::ForceQueuingTag());
+  // the queued tasks of a cancelled set evaporate; tasks that are not the set's keep the POOL over its load
+  // factor (the second load-based inline decision of ConcurrentTaskSet::schedule) after the fault
+  std::atomic<int> fillers{0};
+  for (int i = 0; i < 4; ++i)
+    pool.schedule([&]() {
+      release.wait();
+      fillers.fetch_add(1);
+    }, dispenso::ForceQueuingTag());
+  struct Chain {
+    dispenso::ConcurrentTaskSet* ts;
+    long n;
+    std::atomic<int>*midChain, *recorded;
+    std::atomic<long> ran{0};
+    void link(long k) {
+      bodyEntry();
+      ran.fetch_add(1);
+      if (k == 10 && tObs.depth >= 3) {
+        midChain->store(1, std::memory_order_release);
+        if (waitFor([this]() { return ts->canceled(); }, 10000))
+          recorded->store(1);
+      }
+      if (k < n)
+        ts->schedule([this, k]() { link(k + 1); });
+    }
+  } c{&ts, n, &midChain, &recorded};
+  bool caught = false;
+  try {
+    ts.schedule([&c]() { c.link(1); });
+    midChain.store(1); // (a chain that was not nested at link 10: no fault is placed, the blocker throws late)
+    release.set();
+    ts.wait();
+  } catch (const PipeFault&) {
+    caught = true;
+  }
+  release.set();
+  while (fillers.load() < 4)
+    sched_yield();
+  if (!caught)
+    _exit(9);
+  gNeed.store(recorded.load() ? 10 : 0);
+  gLeft.store(n - c.ran.load());
+  gInj.store(recorded.load());
+}
+
 // recursive scheduling on a TaskSet from its owner thread under overload of the set
 struct TsChain {
   dispenso::TaskSet* ts;
@@ -550,6 +609,8 @@ static std::map<std::string, Scenario> scenarios() {
   m["cts_recursive_heavy_p1"] = [](long n) { ctsRecursive(n, 1, true); };
   m["cts_recursive_light_p1"] = [](long n) { ctsRecursive(n, 1, false); };
   m["cts_recursive_heavy_p0"] = [](long n) { ctsRecursive(n, 0, true); };
+  m["cts_recursive_heavy_fault_p1"] = [](long n) { ctsRecursiveFault(n, 1, true); };
+  m["cts_recursive_light_fault_p1"] = [](long n) { ctsRecursiveFault(n, 1, false); };
   m["ts_recursive_p1"] = [](long n) { tsRecursive(n); };
   m["pool_recursive_p1"] = [](long n) { poolRecursive(n, 1); };
   m["pool_recursive_p0"] = [](long n) { poolRecursive(n, 0); };
